@@ -337,9 +337,32 @@ def emit(filename: str, body: str, header: str = HEADER) -> bool:
     try:
         with open(path, encoding="utf-8") as f:
             if f.read() == text:
+                if not os.path.exists(os.path.join(GEN_DIR, ".lastgood", filename)):
+                    _save_lastgood(filename, text)
                 return False
     except FileNotFoundError:
         pass
     with open(path, "w", encoding="utf-8") as f:
         f.write(text)
+    _save_lastgood(filename, text)
+    return True
+
+
+def _save_lastgood(filename: str, text: str) -> None:
+    """Keep a copy of every successfully generated file.  It is used ONLY when a later translation of
+    that file fails: the model runner is then built from the last good text so that the check can still
+    search for a concrete failing input; the translator obligation and every theorem obligation are
+    reported as broken in that case (see framework.main)."""
+    d = os.path.join(GEN_DIR, ".lastgood")
+    os.makedirs(d, exist_ok=True)
+    with open(os.path.join(d, filename), "w", encoding="utf-8") as f:
+        f.write(text)
+
+
+def restore_lastgood(filename: str) -> bool:
+    src_ = os.path.join(GEN_DIR, ".lastgood", filename)
+    if not os.path.exists(src_):
+        return False
+    with open(src_, encoding="utf-8") as f, open(os.path.join(GEN_DIR, filename), "w", encoding="utf-8") as g:
+        g.write(f.read())
     return True
